@@ -14,7 +14,7 @@ RULE = ("A history = constructor arguments + a generated list of operations (bir
         "diagram or a list, skew either way, and two STATE-DEPENDENT operations resolved at run time: pixel_size := current extent / k, range := lo + m * current pixel_size) interpreted against the real object; the invariant is evaluated after construction and after "
         "EVERY operation, the post-condition after the operation it concerns. Values come from a table of decimals whose quotients are "
         "inexact in binary (0.1, 0.2, 0.3, 0.7, 1/3, 0.05, 0.9, 1.1, 3.3 ... times small integers) and from arbitrary positive floats; "
-        "resolution kept <= 64 per axis (cost bound only). The history is one shrinkable value and the replay file is the history itself.")
+        "image kept <= 40000 pixels and <= 6000 pixels per axis (cost bound only); every length of a history is multiplied by a generated unit (1e-10 .. 1e8). The history is one shrinkable value and the replay file is the history itself.")
 ASSUMPTIONS = [
     "ranges have positive extent; fitted data span a positive extent in birth and in persistence as computed by the routine itself (d - b in float64)",
     "geometry is probed through the public API only: a unit-weight point with a uniform kernel of side pixel_size/2 (kernel_params is a public "
@@ -76,7 +76,14 @@ def fit_data(draw, s):
 def history(draw, max_ops=8):
     s = draw(pixel())
     case = {"init": {"birth_range": draw(rng_for(s)), "pers_range": draw(rng_for(s)), "pixel": s}, "ops": [],
-            "probe": [draw(finite(0.0, 0.999)), draw(finite(0.0, 0.999))]}
+            "probe": [draw(finite(0.0, 0.999)), draw(finite(0.0, 0.999))],
+            # every length of the history is multiplied by this factor by the interpreter (geometry must simply rescale)
+            "unit": draw(st.sampled_from([1.0, 1.0, 1.0, 1e-10, 1e-6, 1e3, 1e8, 3.7e-5]))}
+    if draw(st.integers(0, 9)) == 0:
+        # one long axis (thousands of pixels) next to a short one: cost stays low, pixel counts do not
+        m = draw(st.sampled_from([4095, 4096, 4097, 5000, 1000, 2500]))
+        case["init"]["birth_range"] = [0.0, m * s]
+        case["init"]["pers_range"] = [0.0, 2 * s]
     n = draw(st.integers(1, max_ops))
     for _ in range(n):
         op = draw(st.sampled_from(["birth_range", "pers_range", "pixel", "fit", "pixel_div", "range_pixels"]))
@@ -113,8 +120,9 @@ def invariant(ctx, imgr, probe, step):
     tag = "after %s: " % step
     ctx.require(isinstance(res, tuple) and len(res) == 2 and all(isinstance(r, (int, np.integer)) and r >= 1 for r in res),
                 "resolution_not_positive_ints", lambda: tag + "resolution=%r" % (res,))
-    if res[0] > 200 or res[1] > 200:
+    if res[0] * res[1] > 40000 or max(res) > 6000:
         ctx.skip("resolution beyond the cost bound")
+    ctx.label("long_axis" if max(res) > 4000 else None)
     br, pr = imgr.birth_range, imgr.pers_range
     ctx.require(close(res[0] * s, imgr.width, sc) and close(res[1] * s, imgr.height, sc), "resolution_times_pixel_ne_extent",
                 lambda: tag + "resolution=%r pixel_size=%r width=%r height=%r" % (res, s, imgr.width, imgr.height))
@@ -143,7 +151,31 @@ def covers(ctx, got, want, s, sc, what, step):
                 lambda: "after %s: %s range %r exceeds %r by more than one pixel (%r)" % (step, what, tuple(got), tuple(want), s))
 
 
+def _scaled(case):
+    u = case.get("unit", 1.0)
+    if u == 1.0:
+        return case
+    def sc(v):
+        return [x * u for x in v]
+    out = {"init": {"birth_range": sc(case["init"]["birth_range"]), "pers_range": sc(case["init"]["pers_range"]), "pixel": case["init"]["pixel"] * u},
+           "probe": case["probe"], "ops": []}
+    for op in case["ops"]:
+        o = dict(op)
+        if op["op"] in ("birth_range", "pers_range"):
+            o["val"] = sc(op["val"])
+        elif op["op"] == "pixel":
+            o["val"] = op["val"] * u
+        elif op["op"] == "fit":
+            o["dgms"] = [[sc(q) for q in d] for d in op["dgms"]]
+        elif op["op"] == "range_pixels" and op["lo"] != "keep":
+            o["lo"] = op["lo"] * u
+        out["ops"].append(o)
+    return out
+
+
 def run_history(case, ctx):
+    ctx.label("unit:%g" % case.get("unit", 1.0))
+    case = _scaled(case)
     init = case["init"]
     wt, wp = I.w_const, {"value": 1.0}
     s = init["pixel"]
@@ -188,7 +220,7 @@ def run_history(case, ctx):
                         lambda: "%s moved birth_range from %r to %r" % (step, old_b, imgr.birth_range))
             inexact |= _inexact(op["val"], imgr.pixel_size)
         elif op["op"] == "pixel":
-            if (old_b[1] - old_b[0]) / op["val"] > 200 or (old_p[1] - old_p[0]) / op["val"] > 200:
+            if ((old_b[1] - old_b[0]) / op["val"] + 1) * ((old_p[1] - old_p[0]) / op["val"] + 1) > 40000 or max(old_b[1] - old_b[0], old_p[1] - old_p[0]) / op["val"] > 6000:
                 ctx.skip("resolution beyond the cost bound")
             ctx.call(setattr, imgr, "pixel_size", op["val"])
             ctx.require(imgr.pixel_size == op["val"], "pixel_size_not_set", lambda: "pixel_size %r after assigning %r" % (imgr.pixel_size, op["val"]))
@@ -208,7 +240,7 @@ def run_history(case, ctx):
                     ps.extend(a[:, 1].tolist())
             if not (max(bs) > min(bs) and max(ps) > min(ps)):
                 ctx.skip("fitted data without positive extent (outside the stated domain)")
-            if (max(bs) - min(bs)) / imgr.pixel_size > 200 or (max(ps) - min(ps)) / imgr.pixel_size > 200:
+            if ((max(bs) - min(bs)) / imgr.pixel_size + 1) * ((max(ps) - min(ps)) / imgr.pixel_size + 1) > 40000:
                 ctx.skip("resolution beyond the cost bound")
             arg = arrays[0] if (op["single"] and len(arrays) == 1) else arrays
             ctx.call(imgr.fit, arg, skew=op["skew"])
